@@ -126,6 +126,53 @@ def probes(chk, hx, wd, oracle):
             oracle.append(('the two-equation system %s is analysed as %s / %s (equations listed forwards / backwards), expected nla' % (eqs, types[0], types[1]), [text]))
 
 
+def relay_case(rng):
+    """a state that lives in a chain of connected components: initialised in one, integrated in another, read in one or two (before or after the ODE)"""
+    n = rng.randint(2, 4)
+    init_at, ode_at = rng.randrange(n), rng.randrange(n)
+    readers = sorted(set(rng.randrange(n) for _ in range(rng.randint(1, 2))))
+    comps = []
+    for c in range(n):
+        vs = ['<variable name="x" units="dimensionless" interface="public"%s/>' % (' initial_value="1"' if c == init_at else '')]
+        eqs = []
+        if c == ode_at:
+            vs.append('<variable name="t" units="dimensionless"/>')
+            eqs.append('<apply><eq/><apply><diff/><bvar><ci>t</ci></bvar><ci>x</ci></apply><cn cellml:units="dimensionless">1</cn></apply>')
+        if c in readers:
+            vs.append('<variable name="y%d" units="dimensionless"/>' % c)
+            eqs.insert(rng.randint(0, len(eqs)), '<apply><eq/><ci>y%d</ci><apply><times/><cn cellml:units="dimensionless">2</cn><ci>x</ci></apply></apply>' % c)
+        rng.shuffle(vs)
+        comps.append('<component name="k%d">%s%s</component>' % (c, ''.join(vs), '<math xmlns="http://www.w3.org/1998/Math/MathML">%s</math>' % ''.join(eqs) if eqs else ''))
+    conns = ['<connection component_1="k%d" component_2="k%d"><map_variables variable_1="x" variable_2="x"/></connection>' % ((c, c + 1) if rng.random() < 0.5 else (c + 1, c)) for c in range(n - 1)]
+    rng.shuffle(comps); rng.shuffle(conns)
+    text = '<?xml version="1.0" encoding="UTF-8"?>\n<model xmlns="http://www.cellml.org/cellml/2.0#" xmlns:cellml="http://www.cellml.org/cellml/2.0#" name="m">' + ''.join(comps) + ''.join(conns) + '</model>'
+    return text, readers
+
+
+def relay_stage(chk, hx, wd, rng, oracle, stats):
+    for _ in range(40 if chk.tier == 'quick' else 400):
+        text, readers = relay_case(rng)
+        fn = os.path.join(wd, 'relay.cellml'); open(fn, 'w').write(text)
+        real = analyse_real(hx, fn)
+        stats['relay'] = stats.get('relay', 0) + 1
+        relay_check(real, text, oracle)
+
+
+def relay_check(real, text, oracle):
+    if True:
+        if real is None:
+            oracle.append(('the analyser crashed', [text], [], 'relay')); return
+        if real['type'] != 'ode':
+            oracle.append(('a state relayed through a chain of connected components and read there is analysed as %s, expected ode' % real['type'], [text], [], 'relay')); return
+        states = [k for k, e in enumerate(real['eqs']) if e['type'] == 'ode']
+        for e in real['eqs']:
+            if e['type'] == 'ode':
+                continue
+            have = set(v for dep in e['deps'] for v in dep)
+            if not (len(states) == 1 and set(real['eqs'][states[0]]['vars']) <= have and have):
+                oracle.append(('the equation computing %s reads the state x of a chain of connected components but does not depend on its ODE (its dependencies compute %s)' % (e['vars'], sorted(have)), [text], [], 'relay'))
+
+
 def run(chk, replay=None):
     lib = build_lib()
     hx = build_hx('hx_gencode', lib)
@@ -194,6 +241,8 @@ def run(chk, replay=None):
         for sysd, text, tag, ext in cases:
             fn = os.path.join(wd, 'm.cellml'); open(fn, 'w').write(text)
             real = analyse_real(hx, fn, ext)
+            if replay and r.get('family') == 'relay':
+                relay_check(real, text, oracle); continue
             if real is None:
                 oracle.append(('the analyser crashed', [text])); continue
             stats['systems' if tag == 'base' else 'variants'] += 1
@@ -226,6 +275,28 @@ def run(chk, replay=None):
                         stats['ground_truth_classes'] += 1
                         if got != [want]:
                             oracle.append(('quantity v%d is a %s by construction but is classified %s' % (q.idx, want, got), [text]))
+                    # every directly solved equation depends on the equations computing the non-constant quantities it reads
+                    if not ext:
+                        rname, owner = {}, {}
+                        for q in sysd['qs']:
+                            for c, (nm, u) in q.members.items():
+                                if ('c%d' % c, nm) in real['vars']:
+                                    rname[q.idx] = 'c%d.%s' % (c, nm)
+                        for k, e in enumerate(real['eqs']):
+                            for v in e['vars']:
+                                owner[v] = k
+                        for q in sysd['qs']:
+                            if q.rhs is None or q.idx in imp_ or q.idx not in rname or rname[q.idx] not in owner:
+                                continue
+                            e = real['eqs'][owner[rname[q.idx]]]
+                            if e['type'] in ('nla', 'external'):
+                                continue
+                            have = set(v for dep in e['deps'] for v in dep)
+                            for k in sorted(M.leaves(q.rhs, set())):
+                                stats['dependencies'] = stats.get('dependencies', 0) + 1
+                                if k != q.idx and rname.get(k) in owner and rname[k] not in have:
+                                    oracle.append(('the equation computing %s reads %s (%s) but does not depend on the equation that computes it (its dependencies compute %s)' % (
+                                        rname[q.idx], rname[k], sysd['qs'][k].kind, sorted(have)), [text]))
                 # permutations and consistent renamings
                 base = classes_of(a, real)
                 for k in range(nperm):
@@ -254,6 +325,7 @@ def run(chk, replay=None):
                             oracle.append(('the classification changes when the model is %s: %s' % ('renamed and reordered' if rn else 'reordered', diff[:3]), [text, pt]))
         if not replay:
             probes(chk, hx, wd, oracle)
+            relay_stage(chk, hx, wd, rng, oracle, stats)
     finally:
         shutil.rmtree(wd, ignore_errors=True)
     model = run_lines_parallel(drv, ['analyse'], lines)[1] if os.path.exists(drv) and lines else []
@@ -280,7 +352,7 @@ def run(chk, replay=None):
                    traces_validated_against_impl=len(lines) - len(corr), exhaustive=False, outcome_histogram=stats)
     for o in oracle[:3]:
         what, texts = o[0], o[1]
-        chk.violation('analysis is not consistent: ' + what, {'kind': 'oracle', 'engine': 'analyse', 'cellml': texts, 'externals': o[2] if len(o) > 2 else [], 'why': what}, True)
+        chk.violation('analysis is not consistent: ' + what, {'kind': 'oracle', 'engine': 'analyse', 'cellml': texts, 'externals': o[2] if len(o) > 2 else [], 'family': o[3] if len(o) > 3 else 'generated', 'why': what}, True)
     if not oracle:
         for what, text in corr[:3]:
             chk.violation('analyser model and Analyser::analyseModel disagree (correspondence `analyse` broken): ' + what,
